@@ -173,24 +173,49 @@ def build_harness(cmd):
     ovj = os.path.join(BUILD, "overlay_%s.json" % hashlib.sha1(REPO.encode()).hexdigest()[:8])
     with Lock("overlay"):
         sh([sys.executable, os.path.join(ROOT, "harness", "mkoverlay.py"), ovj], env=dict(os.environ, VERIF_REPO=REPO))
-    # tag verifint: the AUXILIARY add-only exports (harness/overlay/**/verif_export*.go tagged `verif && verifint`) that wrap
-    # unexported helpers which the exported entry points also reach (node encoders of the trie, permute, isValidTime, ...).
-    # When the tree no longer has such a helper under that name (a rewrite), the harness is built again without the tag: the
-    # `_stub.go` siblings panic with VERIF-UNAVAILABLE, the cases that call them come out as UNAVAILABLE and are skipped, and
-    # the streams through the exported API still decide the property.
-    if os.environ.get("VERIF_NO_INT"):      # self-test of the fallback: pretend the auxiliary exports do not compile
-        rc, o = 1, "VERIF_NO_INT set: auxiliary exports left out on purpose"
+    # Every add-only export file harness/overlay/**/verif_export*.go that wraps unexported code carries its own build tag
+    # (`//go:build verif && vi_<pkg>_<name>`) and has a `_stub.go` sibling (`verif && !vi_...`) whose functions panic with
+    # VERIF-UNAVAILABLE. The harness is built with all tags; when an export file no longer compiles against this tree (a rewrite
+    # renamed or removed the unexported helper / field it touches) its tag is dropped and the build repeated: the cases that call
+    # the stub come out as UNAVAILABLE. main() skips them if the property declares their stream auxiliary (SPEC aux_kinds: what
+    # they call directly is also reached through the exported entry points) and reports `no-failing-input-found` otherwise.
+    tags = export_tags()
+    if os.environ.get("VERIF_NO_INT"):      # self-test of the fallback: pretend that no export file compiles
+        dropped, o_first = sorted(tags), "VERIF_NO_INT set: export files left out on purpose"
+        tags = {}
     else:
-        rc, o = sh([go_bin(), "build", "-tags", "verif,verifint", "-overlay", ovj,
-                    "-o", out, "./cmd/" + cmd], cwd=REPO, env=go_env(), timeout=1800)
+        dropped, o_first = [], ""
     DEGRADED.pop(cmd, None)
-    if rc != 0:
-        rc2, o2 = sh([go_bin(), "build", "-tags", "verif", "-overlay", ovj,
-                      "-o", out, "./cmd/" + cmd], cwd=REPO, env=go_env(), timeout=1800)
-        if rc2 == 0:
-            DEGRADED[cmd] = o[-1500:]
-            return True, o[-4000:], out
+    rc, o = 1, ""
+    for _round in range(8):
+        rc, o = sh([go_bin(), "build", "-tags", ",".join(["verif"] + sorted(tags)), "-overlay", ovj,
+                    "-o", out, "./cmd/" + cmd], cwd=REPO, env=go_env(), timeout=1800)
+        if rc == 0:
+            break
+        bad = {t for t, f in tags.items() if os.path.basename(f) in o}
+        if not bad:
+            break
+        if not o_first:
+            o_first = o[-1500:]
+        for t in bad:
+            dropped.append(t)
+            del tags[t]
+    if rc == 0 and dropped:
+        DEGRADED[cmd] = "export files left out: %s\n%s" % (" ".join(sorted(dropped)), o_first)
     return rc == 0, o[-4000:], out
+
+
+def export_tags():
+    """{tag: file} of the add-only export files that have a build tag of their own"""
+    res = {}
+    for root, _, files in os.walk(os.path.join(ROOT, "harness", "overlay")):
+        for f in files:
+            if f.startswith("verif_export") and f.endswith(".go") and not f.endswith("_stub.go"):
+                first = open(os.path.join(root, f)).readline()
+                m = re.search(r"verif && (vi_\w+)", first)
+                if m:
+                    res[m.group(1)] = os.path.join(root, f)
+    return res
 
 
 DEGRADED = {}
@@ -386,6 +411,15 @@ def main(argv=None):
                 print("NOTE: " + msg[:600])
                 if ncmp == 0 and not pipeline_err:
                     pipeline_err = "harness built only without its auxiliary exports and no case could be compared:\n" + DEGRADED[spec["harness"]]
+                # only the streams a property declares auxiliary (SPEC aux_kinds: leading token(s) of the case line; what they call
+                # directly is also reached through the exported entry points of the other streams) may be skipped; an UNAVAILABLE
+                # case of any other stream means an ESSENTIAL part of the correspondence cannot run on this tree
+                aux = tuple(spec.get("aux_kinds", ()))
+                ess = [l[:l.find(" | ")] for l in open(impl_path)
+                       if " | UNAVAILABLE" in l and not (l.startswith(aux) if aux else False)]
+                if ess and not pipeline_err:
+                    pipeline_err = ("an add-only export that this property's correspondence needs no longer compiles against this tree "
+                                    "(%d case(s) could not run, e.g. `%s`):\n%s" % (len(ess), ess[0][:120], DEGRADED[spec["harness"]]))
             for line in open(cases_path):
                 if line.startswith("#STAT "):
                     try:
